@@ -385,5 +385,37 @@ def rule_wrap(repo, tier):
     return res
 
 
+CTORS = {'torch.zeros', 'torch.ones', 'torch.eye', 'torch.tensor', 'torch.empty', 'torch.full', 'torch.arange', 'torch.rand', 'torch.randn',
+         'torch.linspace'}
+
+
+def rule_dtype(repo, tier):
+    res = RuleResult('C06.DTYPE', 'every tensor constructed inside pypose.lietensor.operation takes both dtype and device from an input tensor '
+                     '(or is a *_like / forwards **kwargs): results keep the documented dtype and device; a float32 default silently rounds '
+                     'float64 computations', floor=40)
+    m = repo.module('pypose.lietensor.operation')
+    for q, f in m.functions.items():
+        for n in ast.walk(f.node):
+            if isinstance(n, ast.Call) and dotted(n.func) in CTORS:
+                kws = {k.arg: k.value for k in n.keywords}
+                star = any(k.arg is None for k in n.keywords)
+                ok = star or ('dtype' in kws and 'device' in kws)
+                tied = True
+                if ok and not star:
+                    for key in ('dtype', 'device'):
+                        v = kws[key]
+                        if not (isinstance(v, ast.Attribute) and v.attr == key):
+                            tied = False
+                res.inst({'function': f.fq, 'site': src(n)[:60], 'ok': ok and tied}, (f.fq, norm_construct(n, f.node)))
+                if not ok:
+                    missing = [k for k in ('dtype', 'device') if k not in kws]
+                    res.add(Finding('C06.DTYPE', f, 'tensor constructor `%s` does not take its %s from an input: the result falls back to the '
+                                    'global default and no longer follows the dtype/device of the operands' % (src(n)[:60], ' and '.join(missing)), node=n))
+                elif not tied:
+                    res.add(Finding('C06.DTYPE', f, 'tensor constructor `%s` takes dtype/device from something other than `<tensor>.dtype` / '
+                                    '`<tensor>.device`' % src(n)[:60], node=n))
+    return res
+
+
 def rules(repo, tier):
-    return [rule_mut(repo, tier), rule_patch(repo, tier), rule_bcast(repo, tier), rule_wrap(repo, tier)]
+    return [rule_mut(repo, tier), rule_patch(repo, tier), rule_bcast(repo, tier), rule_wrap(repo, tier), rule_dtype(repo, tier)]
